@@ -282,7 +282,14 @@ class Doc(object):
     # ACL resources and rules, triggers
     acts.append(["AddRecord", "_grist_ACLResources", 1, {"tableId": "*", "colIds": "*"}])
     nrule = 0
-    for a in doc["attrs"]:
+    # where a user attribute is defined relative to the rules that use it is free: every second attribute
+    # is defined in a rule stored AFTER all the formula rules (as when it is added to an existing rule set)
+    late_attrs = []
+    for i, a in enumerate(doc["attrs"]):
+      if i % 2 == 1:
+        late_attrs.append(a)
+        self.attr_rule_ids.append(None)
+        continue
       nrule += 1
       acts.append(["AddRecord", "_grist_ACLRules", nrule, {"resource": 1, "userAttributes": json.dumps(a)}])
       self.attr_rule_ids.append(nrule)
@@ -317,6 +324,10 @@ class Doc(object):
         acts.append(["AddRecord", "_grist_Triggers", ntrig,
                      {"tableRef": trefs[e["self"]], "label": "t%d" % k,
                       "condition": text if cond is None else json.dumps(cond)}])
+    for a in late_attrs:
+      nrule += 1
+      acts.append(["AddRecord", "_grist_ACLRules", nrule, {"resource": 1, "userAttributes": json.dumps(a)}])
+      self.attr_rule_ids[self.attr_rule_ids.index(None)] = nrule
     adapter.apply(self.eng, acts)
     if self.patch_acl:
       self.reload_with_acl_texts()
